@@ -125,7 +125,7 @@ class CallMixin:
                 outs.extend(r)
                 st.emit("MR", name, site)
             val = plain_args[-1] if plain_args else None
-            self.w_event(st, "method:" + name, recv, None, val, site)
+            self.w_event(st, "method:" + name, recv, ",".join(vrepr(a_) for a_ in plain_args), val, site)
             if name in ("pop", "popitem", "setdefault"):
                 res = Sym(recv.tok + (f".{name}()",), recv.content_prov())
             else:
@@ -134,6 +134,8 @@ class CallMixin:
             return outs
         if name in PURE_METHODS:
             outs = []
+            if self.cfg.emit_reads:
+                st.emit("RD", name, vrepr(recv), tuple(vrepr(a) for a in plain_args), site)
             if name in RAISING_METHODS:
                 r = self._implicit_raise(st, frame, node, {"IndexError", "KeyError", "ValueError", "LookupError"}, name)
                 if r and r[-1] is None:
